@@ -476,7 +476,15 @@ E8_PINS = {
             (MANF, "KeplerianContinuousMan.__init__", "element increments default to zero"), (MANF, "KeplerianContinuousMan.accel", "acceleration from element increments")],
     "C20": [("beyond/frames/frames.py", "get_frame", "unknown names are reported, JPL frames created on demand")],
     "C01": [("beyond/orbits/statevector.py", "Infos.type", "first classification flag that holds")],
-    "C18": [("beyond/env/jpl.py", "Pck.__getitem__", "kernel constants converted to SI (km → m, km³/s² → m³/s²)")],
+    "C02": [("beyond/orbits/statevector.py", "StateVector.frame:setter", "the frame change is applied to the cartesian state and committed together with it"),
+            ("beyond/frames/frames.py", "Frame.transform", "rotation then translation, by the orientation and centre chains")],
+    "C07": [("beyond/io/tle.py", "Tle.__init__", "field columns and scalings of the two lines"), ("beyond/io/tle.py", "Tle.orbit", "the orbit handed to SGP4 carries the parsed fields"),
+            ("beyond/io/tle.py", "_float", "implied-decimal reader")],
+    "C18": [("beyond/env/jpl.py", "Pck.__getitem__", "kernel constants converted to SI (km → m, km³/s² → m³/s²)"),
+            ("beyond/frames/frames.py", "orbit2frame", "a frame attached to a kernel orbit hangs from the centre that orbit is expressed from"),
+            ("beyond/frames/frames.py", "Frame.transform", "rotation then translation, by the orientation and centre chains"),
+            ("beyond/frames/center.py", "Center.convert_to", "offsets summed along the centre chain, reversed links negated"),
+            ("beyond/frames/center.py", "Center._to_parent", "offset (fixed or propagated) rotated into the requested axes")],
     "C19": [("beyond/utils/lambert.py", "_C", "Stumpff function C(z), three branches"), ("beyond/utils/lambert.py", "_S", "Stumpff function S(z), three branches"),
             ("beyond/utils/lambert.py", "_y", "auxiliary y(z)"), ("beyond/utils/lambert.py", "_dF", "derivative used by the Newton iteration"),
             ("beyond/utils/lambert.py", "_lambert", "Newton iteration on z, Lagrange coefficients, both velocities"),
@@ -499,3 +507,26 @@ def pins_rule(chk):
     for rel, key, what in pins:
         same_as_reference(chk, "PIN", rel, key, what)
     chk.floor("PIN", len(pins))
+
+
+# functions whose rule accepts several idioms (R20.3): pinning them to one would undo that
+ANCHOR_EXEMPT = {("beyond/utils/node.py", "Node.steps"), ("beyond/utils/node.py", "Node.path")}
+
+
+def anchors_rule(chk):
+    """ANCHOR: every function a rule of this property looked up by name is proven equal to its reference version (E8).
+    The rules explain *what* must hold in those functions but read only the fragments they know; this clause closes the
+    gap for everything else in the same function (an extra statement, a changed argument, a different source of a value)."""
+    import os as _os
+    if _os.environ.get("BVSTATIC_NO_ANCHORS"):
+        return
+    from ..equiv import reference, same_as_reference
+    ref = reference()["modules"]
+    pinned = {(rel, key) for rel, key, _ in E8_PINS.get(chk.prop, [])}
+    cand = set(chk.repo.consulted) - ANCHOR_EXEMPT
+    todo = sorted(k for k in cand if k not in pinned and k[1] in ref.get(k[0], {}).get("funcs", {}))
+    if not todo:
+        return
+    chk.rule("ANCHOR", "every function the rules of this property anchor on is proven equal to its reference version (E8)")
+    for rel, key in todo:
+        same_as_reference(chk, "ANCHOR", rel, key, "a function the rules of this property read")
